@@ -1,5 +1,5 @@
 (* Run/Main.v — dispatch on the family code (first integer of a case). *)
-From FB Require Import Sem.Base Run.Codec Run.Api Run.Rf.
+From FB Require Import Sem.Base Run.Codec Run.Api Run.Rf Run.Adapters.
 Open Scope Z_scope.
 Definition run_case (chk : bool) (l : list Z) : list Z :=
   match l with
@@ -9,6 +9,8 @@ Definition run_case (chk : bool) (l : list Z) : list Z :=
       else if fam =? 8 then run_apistep chk t
       else if fam =? 7 then run_escape t
       else if fam =? 3 then run_rf chk t
+      else if fam =? 4 then run_chain t
+      else if fam =? 5 then run_take chk t
       else if fam =? 9 then run_rfstep chk t
       else []
   | [] => []
